@@ -799,6 +799,66 @@ func (ts *Terms) loadAlloc(a *ssa.Alloc, fld *ssa.FieldAddr, fr *Frame, depth in
 				}
 			}
 		}
+		// functional options: `for _, o := range opts { o(&x) }` with opts the variadic list of
+		// the call that reached this frame - each option (a closure, or the closure a helper
+		// like payTo(addr) returns) assigns fields through the pointer, in list order
+		if depth < 30 && frameDepth(fr) < 12 && fr != nil && fr.Call != nil && !fr.Call.Common().IsInvoke() {
+			for _, r := range *a.Referrers() {
+				c, ok := r.(*ssa.Call)
+				if !ok || c.Common().IsInvoke() || c.Common().StaticCallee() != nil || len(c.Common().Args) != 1 || c.Common().Args[0] != ssa.Value(a) {
+					continue
+				}
+				// the called value is an element of a slice parameter
+				ld, ok := c.Common().Value.(*ssa.UnOp)
+				if !ok || ld.Op != token.MUL {
+					continue
+				}
+				ia, ok := ld.X.(*ssa.IndexAddr)
+				if !ok {
+					continue
+				}
+				pa, ok := ia.X.(*ssa.Parameter)
+				if !ok {
+					continue
+				}
+				pi := -1
+				for i, q := range pa.Parent().Params {
+					if q == pa {
+						pi = i
+					}
+				}
+				args := fr.Call.Common().Args
+				if pi < 0 || pi >= len(args) {
+					continue
+				}
+				for _, e := range variadicElems(args[pi]) {
+					if e == nil {
+						continue
+					}
+					mc, g, creator := resolveClosure(e, argsFrame(fr), 0)
+					if g == nil || g.Blocks == nil || len(g.Params) != 1 || g.Params[0].Referrers() == nil {
+						continue
+					}
+					nfr := &Frame{Fn: g, Parent: creator, MC: mc, Call: c, ArgsFr: fr, Depth: frameDepth(fr) + 1}
+					for _, pr := range *g.Params[0].Referrers() {
+						fa, ok := pr.(*ssa.FieldAddr)
+						if !ok || fa.Referrers() == nil {
+							continue
+						}
+						name := fieldNameShort(fa.X.Type(), fa.Field)
+						for _, r2 := range *fa.Referrers() {
+							if st, ok := r2.(*ssa.Store); ok && st.Addr == ssa.Value(fa) {
+								if fields[name] == nil {
+									order = append(order, name)
+								}
+								t := ts.of(st.Val, nfr, depth+1)
+								fields[name] = map[string]*Term{t.String(): t} // a later option overrides
+							}
+						}
+					}
+				}
+			}
+		}
 		if len(order) > 0 {
 			sort.Strings(order)
 			t := &Term{Op: "struct", Name: typeShort(a.Type())}
@@ -1949,6 +2009,16 @@ func resolveClosure(v ssa.Value, fr *Frame, d int) (*ssa.MakeClosure, *ssa.Funct
 	case *ssa.Function:
 		if x.Parent() != nil && x.Blocks != nil && len(x.FreeVars) == 0 {
 			return nil, x, fr // a function literal that captures nothing
+		}
+	case *ssa.Call:
+		// the closure a helper returns (payTo(addr) = func(l *leg) { l.recipient = addr })
+		if !x.Common().IsInvoke() {
+			if g := x.Common().StaticCallee(); g != nil && g.Blocks != nil && isIrismodFunc(g) && !onChain(fr, g) {
+				rets := returnsOf(g)
+				if len(rets) == 1 && len(rets[0].Results) == 1 {
+					return resolveClosure(rets[0].Results[0], &Frame{Fn: g, Parent: fr, Call: x, Depth: frameDepth(fr) + 1}, d+1)
+				}
+			}
 		}
 	case *ssa.ChangeType:
 		return resolveClosure(x.X, fr, d+1)
